@@ -21,11 +21,15 @@ static int nops[MAXT + 1];
 static int nthreads = 2;
 static char prim[16] = "mutex";
 static Mutex* mutex = 0;
+static Mutex g_staticMutex;                    // a Mutex with static storage duration, constructed before main() and (by link order) before the
+                                               // library's own translation units are initialised (gmtx=1 uses it)
 static Semaphore* sem = 0;
 static Signal* sig = 0;
 static Monitor* mon = 0;
 static Thread* thr[MAXT + 1];
 static volatile int waitersDone = 0, waitersTotal = 0;
+static volatile int entered = 0;               // waiters that have taken the monitor and are about to wait (mwaite)
+static volatile int returnedW = 0;             // mwaite calls that have returned
 static int logicalId[64];                      // scheduler thread id -> program index
 
 extern "C" int sched_param_str(const char* name, char* buf, int size);
@@ -50,8 +54,14 @@ static void run_prog(void* arg)
     long ms = 0;
     char f[16]; strcpy(f, op);
     for(char* p = f; *p; ++p) if(*p >= '0' && *p <= '9') { ms = atol(p); *p = 0; break; }
-    sched_event("\"op\":\"call\",\"t\":%d,\"f\":\"%s\",\"ms\":%ld", t, !strcmp(f, "tlu") ? "trylock" : f, ms);
+    // msetafter<k>: set number k is issued only after k waiters have taken the monitor AND the k-1 sets before it have each
+    // released a waiter (so sets never coalesce): every such set has to release a waiter
+    if(!strcmp(f, "msetafter")) { while(entered < (int)ms || returnedW < (int)ms - 1) sched_point("await_enter"); ms = 0; }
+    const char* lf = !strcmp(f, "tlu") ? "trylock" : !strcmp(f, "mwaite") ? "mwait" : !strcmp(f, "msetafter") ? "mset" : f;
+    sched_event("\"op\":\"call\",\"t\":%d,\"f\":\"%s\",\"ms\":%ld", t, lf, ms);
     int r = 1;
+    if(!strcmp(f, "mwaite")) { ++entered; r = mon->wait(); ++returnedW; }
+    if(!strcmp(f, "msetafter")) mon->set();
     if(!strcmp(f, "lock")) mutex->lock();
     else if(!strcmp(f, "unlock")) mutex->unlock();
     else if(!strcmp(f, "trylock")) r = mutex->tryLock();
@@ -82,6 +92,9 @@ static void run_prog(void* arg)
     else if(!strcmp(f, "mwait")) { r = mon->wait(); }
     else if(!strcmp(f, "mtwait")) r = mon->wait(ms);
     else if(!strcmp(f, "mset")) mon->set();
+    // mwaite: an untimed wait that counts itself as "has taken the monitor" first; msetafter<k>: a set() issued only after k
+    // waiters have done so - so every such set has to release a waiter and all the waiters return (logged as mwait / mset)
+    else if(!strcmp(f, "mwaite") || !strcmp(f, "msetafter")) { /* handled below */ }
     else if(!strcmp(f, "mdone")) { ++waitersDone; }
     else if(!strcmp(f, "msetloop"))
     {
@@ -101,7 +114,7 @@ static void run_prog(void* arg)
     else if(!strcmp(f, "start")) { thr[t] = new Thread; r = thr[t]->start(child_proc, (void*)(long)(t * 100 + i)); sched_event("\"op\":\"started\",\"t\":%d,\"v\":%d", t, t * 100 + i); }
     else if(!strcmp(f, "join")) { r = thr[t] ? (int)thr[t]->join() : -1; }
     else { sched_fail("scenario: unknown op %s", op); }
-    sched_event("\"op\":\"ret\",\"t\":%d,\"f\":\"%s\",\"r\":%d", t, f, r);
+    sched_event("\"op\":\"ret\",\"t\":%d,\"f\":\"%s\",\"r\":%d", t, lf, r);
   }
 }
 
@@ -109,7 +122,7 @@ extern "C" void scenario_setup(void)
 {
   sched_param_str("prim", prim, sizeof(prim));
   nthreads = sched_param_int("n", 2);
-  if(!strcmp(prim, "mutex")) mutex = new Mutex;
+  if(!strcmp(prim, "mutex")) mutex = sched_param_int("gmtx", 0) ? &g_staticMutex : new Mutex;
   else if(!strcmp(prim, "sem")) sem = new Semaphore((uint)sched_param_int("init", 0));
   else if(!strcmp(prim, "signal")) sig = new Signal(sched_param_int("init", 0) != 0);
   else if(!strcmp(prim, "monitor")) mon = new Monitor;
